@@ -156,3 +156,143 @@ def write_pickle_ktable(path, name, wn, T, P_pa, k_cm2, weights):
          'samples': np.cumsum(weights), 'resolution': 1.0, 'method': 'verif'}
     with open(path, 'wb') as f:
         pickle.dump(d, f)
+
+
+# ----------------------------------------------------------------------------------------------
+# in-memory CIA
+# ----------------------------------------------------------------------------------------------
+_CIA = None
+
+
+def TinyCIA(pair, wn, T, xsec):
+    """In-memory collision-induced absorption table xsec[nT, nW] (m^5): linear in T between
+    nodes, zero outside the temperature grid (the documented rule for CIA objects)."""
+    global _CIA
+    if _CIA is None:
+        from taurex.cia.cia import CIA
+
+        class _TinyCIA(CIA):
+            def __init__(self, pair, wn, T, xsec):
+                CIA.__init__(self, 'tinycia:' + pair, pair)
+                self._wn = np.array(wn, float)
+                self._T = np.array(T, float)
+                self._x = np.array(xsec, float)
+
+            wavenumberGrid = property(lambda s: s._wn)
+            temperatureGrid = property(lambda s: s._T)
+
+            def compute_cia(self, temperature):
+                if temperature < self._T[0] or temperature > self._T[-1]:
+                    return np.zeros_like(self._wn)
+                return np.array([np.interp(temperature, self._T, self._x[:, i])
+                                 for i in range(len(self._wn))])
+        _CIA = _TinyCIA
+    return _CIA(pair, wn, T, xsec)
+
+
+def cia_ref(xsec, Tg, T):
+    """Reference for TinyCIA: linear in T, zero outside."""
+    Tg = np.asarray(Tg, float)
+    x = np.asarray(xsec, float)
+    if T < Tg[0] or T > Tg[-1]:
+        return np.zeros(x.shape[1])
+    hi = 1
+    while hi < len(Tg) - 1 and Tg[hi] < T:
+        hi += 1
+    f = (T - Tg[hi - 1]) / (Tg[hi] - Tg[hi - 1])
+    return x[hi - 1] + f * (x[hi] - x[hi - 1])
+
+
+# ----------------------------------------------------------------------------------------------
+# tiny forward models
+# ----------------------------------------------------------------------------------------------
+def gas_profile(mol, prof):
+    """prof: ('const', x) | ('array', [..])"""
+    if prof[0] == 'const':
+        from taurex.data.profiles.chemistry import ConstantGas
+        return ConstantGas(mol, mix_ratio=prof[1])
+    if prof[0] == 'array':
+        from taurex.data.profiles.chemistry.gas.arraygas import ArrayGas
+        return ArrayGas(mol, mix_ratio_array=list(prof[1]))
+    raise ValueError(prof)
+
+
+def temp_profile(spec, N):
+    """spec: ('iso', T) | ('array', [T_0..]) (interpolated by TemperatureArray if len != N)
+    | named letters 'dec', 'inc', 'nonmono', 'hot1'"""
+    from taurex.data.profiles.temperature import Isothermal
+    from taurex.data.profiles.temperature.temparray import TemperatureArray
+    if spec[0] == 'iso':
+        return Isothermal(T=float(spec[1]))
+    if spec[0] == 'array':
+        return TemperatureArray(tp_array=list(spec[1]))
+    name = spec[0]
+    if name == 'dec':
+        arr = np.linspace(1800.0, 600.0, N)
+    elif name == 'inc':
+        arr = np.linspace(500.0, 2100.0, N)
+    elif name == 'nonmono':
+        arr = np.array([1500.0, 700.0, 1900.0, 400.0, 1100.0, 2300.0, 900.0] * 20)[:N]
+    elif name == 'hot1':
+        arr = np.full(N, 700.0)
+        arr[N // 2] = 2200.0
+    elif name == 'outside':          # partly outside the 200..2500 K table range
+        arr = np.linspace(3000.0, 150.0, N)
+    else:
+        raise ValueError(spec)
+    return TemperatureArray(tp_array=[float(a) for a in arr])
+
+
+def build_model(spec):
+    """Build a fresh forward model from a JSON-able spec (see mc/checks/c01.py for the keys).
+    Opacities must have been registered with the caches before model() is called."""
+    from taurex.data import Planet
+    from taurex.data.stellar import BlackbodyStar
+    from taurex.data.profiles.chemistry import TaurexChemistry
+    from taurex.model import TransmissionModel, EmissionModel, DirectImageModel
+    N = spec['N']
+    pmax, pmin = spec.get('prange', (1e6, 1e-1))
+    pr, pm = spec.get('planet', (1.0, 1.0))
+    sr, st = spec.get('star', (1.0, 5000.0))
+    planet = Planet(planet_mass=pm, planet_radius=pr)
+    star = BlackbodyStar(temperature=st, radius=sr, distance=spec.get('distance', 1.0))
+    fill, ratio = spec.get('fill', (['H2', 'He'], 0.17))
+    chem = TaurexChemistry(fill_gases=list(fill), ratio=ratio)
+    for mol, prof in spec.get('gases', []):
+        chem.addGas(gas_profile(mol, prof))
+    kw = dict(planet=planet, star=star, chemistry=chem, nlayers=N, atm_min_pressure=pmin,
+              atm_max_pressure=pmax, temperature_profile=temp_profile(spec.get('T', ('iso', 1000.0)), N))
+    kind = spec.get('kind', 'transmission')
+    if kind == 'transmission':
+        m = TransmissionModel(new_path_method=(spec.get('path', 'old') == 'new'), **kw)
+    elif kind == 'emission':
+        m = EmissionModel(ngauss=spec.get('ngauss', 4), **kw)
+    elif kind == 'directimage':
+        m = DirectImageModel(ngauss=spec.get('ngauss', 4), **kw)
+    else:
+        raise ValueError(kind)
+    for c in spec.get('contribs', ['abs']):
+        m.add_contribution(make_contrib(c))
+    m.build()
+    return m
+
+
+def make_contrib(c):
+    """c: 'abs' | 'ray' | ['cia', [pairs]] | ['clouds', P] | ['flat', {kw}] | ['lee', {kw}] | 'hm'"""
+    from taurex import contributions as C
+    if c == 'abs':
+        return C.AbsorptionContribution()
+    if c == 'ray':
+        return C.RayleighContribution()
+    if c == 'hm':
+        return C.HydrogenIon()
+    if isinstance(c, (list, tuple)):
+        if c[0] == 'cia':
+            return C.CIAContribution(cia_pairs=list(c[1]))
+        if c[0] == 'clouds':
+            return C.SimpleCloudsContribution(clouds_pressure=c[1])
+        if c[0] == 'flat':
+            return C.FlatMieContribution(**c[1])
+        if c[0] == 'lee':
+            return C.LeeMieContribution(**c[1])
+    raise ValueError(c)
